@@ -274,8 +274,9 @@ def standin_probabilistic_gates(tier, seed):
                 g = sub.with_probability(p)
                 want = p * S_sub + (1 - p) * np.eye(d * d)
                 if nested:
-                    g = g.with_probability(0.5)
-                    want = 0.5 * want + 0.5 * np.eye(d * d)
+                    outer = {0.25: 0.5, 0.5: 0.3, 0.9: 0.8}[p]          # (never the same probability twice: b * b is not a * b)
+                    g = g.with_probability(outer)
+                    want = outer * want + (1 - outer) * np.eye(d * d)
                 cases += 1
                 try:
                     ks = cirq.kraus(g)
